@@ -129,6 +129,15 @@ class Harness(object):
                         if not ck.startswith('__') and (cv is None or (isinstance(cv, (dict, list, set)) and len(cv) == 0)):
                             self.initial.append((v, ck, cv))
         self.instances = [(g, dict(g.__dict__)) for g in (self.a.ag2015, self.a.ag2023, self.a.aag)]
+        # state that cannot be put back by assignment: one-shot iterators / generators held at module level.  A module that
+        # has one is re-executed (importlib.reload) at every reset instead; functions bound elsewhere keep working because
+        # reload re-uses the module's own globals dict
+        self.reload_mods = []
+        for m in mods:
+            its = [k for k, v in vars(m).items() if not k.startswith('__') and hasattr(v, '__next__')]
+            if its and m.__name__ != 'athlib':
+                self.reload_mods.append(m)
+                ctx.info.setdefault('modules_reloaded_at_reset(one-shot iterator at module level)', []).append('%s: %s' % (m.__name__, its))
         ctx.info['resettable_state'] = sorted('%s.%s' % (getattr(o, '__name__', o), k) for o, k, v in self.initial)[:60]
 
     def fn(self, name):
@@ -150,6 +159,11 @@ class Harness(object):
         return go
 
     def reset(self, warm, cache):
+        for m in self.reload_mods:
+            import importlib
+            importlib.reload(m)
+            self.locks = self.locks + [l for l in sched.instrument_locks([m]) if l not in self.locks]
+            sched.proxy_threading([m])
         for owner, k, v in self.initial:
             if v is None:
                 setattr(owner, k, None)
@@ -201,8 +215,11 @@ class Harness(object):
                 ok = False
         self.ref_cache[key] = alone if ok else None
         if not ok:
+            # the calls of a scenario are independent questions: if their sequential answers depend on the order even after
+            # a reset, there is no single-threaded reference to compare with - say so instead of passing silently
             self.ctx.count('unjudged.scenario-sequentially-order-dependent')
             self.ctx.sample('order-dependent-scenario', sc['name'], 5)
+            self.ctx.inconclusive.append('scenario %s: sequential answers depend on the order of the calls (no reference)' % sc['name'])
         return self.ref_cache[key]
 
     def solo_lines(self, sc):
